@@ -4,4 +4,6 @@ P4 == [r \in {"r1","r2","r3","r4"} |-> IF r \in {"r1","r3"} THEN 2 ELSE 1]
 Pr4 == [r \in {"r1","r2","r3","r4"} |-> IF r \in {"r1","r2"} THEN 0 ELSE 1]
 P5 == [r \in {"r1","r2","r3","r4","r5"} |-> CASE r = "r1" -> 3 [] r = "r2" -> 1 [] r = "r3" -> 2 [] r = "r4" -> 1 [] OTHER -> 3]
 Pr5 == [r \in {"r1","r2","r3","r4","r5"} |-> IF r \in {"r1","r2"} THEN 0 ELSE 1]
+C24 == {[mp |-> 2, maxp |-> 4]}
+C37 == {[mp |-> 3, maxp |-> 7]}
 ====
